@@ -3,6 +3,7 @@ import FimVerif.Model.Authz
 open Lean FimVerif.Proto FimVerif.Authz FimVerif.Gen.Authz
 
 /-! Requests: `["authz", slice]`, `["log", slice]`, `["authz-legacy", slice]`,
+`["shared", slice]` / `["shared-legacy", slice]` (authorize, log, authorize again over the same sliver objects),
 `["authz-asm", raw]`, `["log-asm", raw]` (raw services carry "os": owner sites and "lim": num_sites limited);
 slice = {"nodes":[{name,t,site,caps,alloc,comps}], "svcs":[{name,t,site,bw,mp}], "facs":[..], "ifaces":[null|[]|[null]|[ln]]} -/
 
@@ -81,6 +82,10 @@ def handle (j : Json) : Json :=
     else if op == "log" then logReply (logCollect sl)
     else if op == "authz-asm" then authzReply (collectAsm (getRawSlice x))
     else if op == "log-asm" then logReply (logCollectAsm (getRawSlice x))
+    else if op == "shared" || op == "shared-legacy" then
+      let r := if op == "shared" then sharedSession (svcStepObj []) sl.nodes sl.svcs
+               else sharedSession (svcStepObjLegacy []) sl.nodes sl.svcs
+      Json.arr #[authzReply r.1, logReply r.2.1, authzReply r.2.2]
     else err "bad-op"
   | _ => err "bad-request"
 
